@@ -10,11 +10,29 @@
 
    ret = 0 success; ret = 1 the library ran out of space (ENOSPC class): the operation may have taken partial
    effect, the file is `tainted` and only the OTHER file and the final consistency are still checked;
-   ret = 2 any other error = a refusal: the state must be unchanged.                                     *)
-EXTENDS FileData, Json, IOUtils
-VARIABLES l, taint, al, uok, eofc
-tvars == <<avars, l, taint, al, uok, eofc>>
+   ret = 2 any other error = a refusal: the state must be unchanged.
+
+   SPACE ACCOUNTING (SpaceAcct): every line carries the accounting record `acct` taken after the call (free units by
+   the bitmap, the superblock and the group descriptors; units mapped and i_blocks of files 0, 1 and the ballast; units
+   marked but mapped by nobody, units mapped but not marked, units mapped twice).  Every line must ALSO be one of the
+   SpaceAcct relations: whatever the outcome of the call -- success, ENOSPC, refusal -- every unit stays in exactly one
+   place, only the file operated on gains or loses units, i_blocks is what the file maps.  After `remount` and in the
+   final line the bitmaps come from disk: the relation then says that ext2fs_close recorded every allocation of the
+   session (a later session cannot hand the same blocks to another file).
+
+   ENOSPC LADDER (strict = 1 on the reset line): the history is  prelude (establishes the tree-growth situation `sit`
+   of SpaceAcct!Sits) ; setfree r (the ballast absorbs all but r units) ; the operation `lad` of SpaceAcct!LadderOps.
+   A failed write is then EXACT: the blocks before the one that could not be allocated are written, nothing else
+   changes, nobody is tainted.  `lseen` collects <<sit, r, lad, outcome>> for every ladder operation that was issued
+   in the situation it claims (SitHolds on the observed tree path); checks/c09.py compares it with the ladder
+   SpaceAcct defines (vacuity guard).  outcome 0 = success, 1 = ENOSPC, 2 = ENOSPC through DevFallocLeak.      *)
+EXTENDS FileData, SpaceAcct, Json, IOUtils, SequencesExt
+VARIABLES l, taint, al, uok, eofc, strict, sit, lad, armed, lseen, bid
+tvars == <<avars, svars, l, taint, al, uok, eofc, strict, sit, lad, armed, lseen, bid>>
 Tr == ndJsonDeserialize(IOEnv.TRACE)
+Acct == Tr[l].acct
+KeepDisk == UNCHANGED <<dfree, bbdirty, mounted, aop>>         \* the session variables of the protocol model are not observed
+KeepLad == UNCHANGED <<strict, sit, lad, lseen, bid>>
 
 IsEvent(e) == l <= Len(Tr) /\ Tr[l].e = e /\ l' = l + 1
 F == Tr[l].f
@@ -23,7 +41,7 @@ B == Tr[l].b
 Ok == Tr[l].ret = 0 /\ Tr[l].full = 1
 NoSpace == Tr[l].ret = 1 \/ (Tr[l].ret = 0 /\ Tr[l].full = 0)
 Refused == Tr[l].ret = 2
-Keep == UNCHANGED <<al, uok, eofc>>
+Keep == UNCHANGED <<al, uok, eofc>> /\ KeepDisk
 Stamp(e) == /\ op' = [e |-> e, f |-> F, a |-> A, b |-> B] /\ nops' = nops + 1
 
 \* an observed, untainted file must be exactly the model's file
@@ -50,13 +68,38 @@ TReset == /\ IsEvent("reset")
           /\ op' = [e |-> "init", f |-> 0, a |-> 0, b |-> 0] /\ res' = NoRes /\ nops' = 0
           /\ taint' = [f \in Files |-> FALSE]
           /\ al' = Tr[l].al /\ uok' = Tr[l].uok /\ eofc' = Tr[l].eofc
+          /\ free' = 0 /\ own' = [f \in Owners |-> 0] /\ leak' = [f \in Owners |-> 0] /\ ibx' = [f \in Owners |-> 0]
+          /\ KeepDisk /\ strict' = Tr[l].strict /\ sit' = Tr[l].sit /\ lad' = Tr[l].lad /\ armed' = FALSE /\ UNCHANGED lseen
+          /\ bid' = Tr[l].id
+\* the files exist and are empty, nothing has been written yet: the accounting starts from what is there
+TBegin == /\ IsEvent("begin") /\ Keep /\ KeepLad /\ UNCHANGED <<avars, taint, armed>>
+          /\ free' = Acct.free /\ own' = ObsOwn(Acct) /\ leak' = [f \in Owners |-> 0] /\ ibx' = [f \in Owners |-> 0]
+          /\ ObsIs(Acct)
+\* the ladder operation: the first write / fallocate after setfree
+Outcome(dev) == IF Ok THEN 0 ELSE IF dev THEN 2 ELSE 1
+Note(dev) == /\ armed' = FALSE
+             /\ lseen' = IF armed /\ SitHolds(sit, Tr[l].path) THEN lseen \cup {<<sit, free, lad, Outcome(dev)>>} ELSE lseen
+             /\ UNCHANGED <<strict, sit, lad, bid>>
+\* the ballast absorbs free space until exactly A units are left; the two files are not touched
+TSetFree == /\ IsEvent("setfree") /\ Stamp("sync") /\ Keep /\ Ok /\ Unchanged
+            /\ RelGrow(2, Acct) /\ free' = A
+            /\ armed' = TRUE /\ KeepLad
+            /\ Seen
+\* pair = 1 / 2: the two lines of an alternating prelude (both files were written block by block, logged afterwards)
+WriteAcct == IF Tr[l].pair = 1 THEN RelGrowAll(Acct) ELSE IF Tr[l].pair = 2 THEN RelNone(Acct) ELSE RelGrow(F, Acct)
+\* strict: a write that ran out of space stopped at cut dcut; exactly the part before it was written
+PartialExact == /\ Tr[l].dcut >= A /\ Tr[l].dcut < B
+                /\ cell' = [cell EXCEPT ![F] = WriteCells(@, A, Tr[l].dcut, Tr[l].tag)]
+                /\ size' = [size EXCEPT ![F] = IF Tr[l].dcut > A THEN WriteSize(@, Tr[l].dcut) ELSE @]
+                /\ UNCHANGED <<res, taint>>
 TWrite == /\ IsEvent("write") /\ Stamp("write") /\ Keep
           /\ \/ /\ Ok /\ A < B
                 /\ cell' = [cell EXCEPT ![F] = WriteCells(@, A, B, Tr[l].tag)]
                 /\ size' = [size EXCEPT ![F] = WriteSize(@, B)]
                 /\ UNCHANGED <<res, taint>>
-             \/ NoSpace /\ Tainted
+             \/ NoSpace /\ (IF strict = 1 THEN PartialExact ELSE Tainted)
              \/ Refused /\ Unchanged
+          /\ WriteAcct /\ Note(FALSE)
           /\ Seen
 TSetSize == /\ IsEvent("setsize") /\ Stamp("setsize") /\ Keep
             /\ \/ /\ Ok
@@ -65,6 +108,7 @@ TSetSize == /\ IsEvent("setsize") /\ Stamp("setsize") /\ Keep
                   /\ UNCHANGED <<res, taint>>
                \/ NoSpace /\ Tainted
                \/ Refused /\ Unchanged
+            /\ RelAny(F, Acct) /\ KeepLad /\ UNCHANGED armed
             /\ Seen
 \* Documented behaviour of the library for inline data (punch.c: "we will remove all inline data in ext2fs_punch()";
 \* lib/ext2fs tst_inline_data expects it): punching block 0 of an inline-data file empties the file, i_size becomes 0.
@@ -80,29 +124,43 @@ TPunch == /\ IsEvent("punch") /\ Stamp("punch") /\ Keep
                 /\ Unmapped(F, A, B)
              \/ NoSpace /\ Tainted
              \/ Refused /\ Unchanged
+          /\ RelAny(F, Acct) /\ KeepLad /\ UNCHANGED armed
           /\ Seen
 \* how far a keep-size preallocation reaches: to B on files that can hold uninitialized extents, else to the end of the
 \* block holding EOF (eofc[f][s] = the last cut point not beyond the end of the block that holds cut s)
 FallocLim == IF Tr[l].inl[F + 1] = 1 THEN A          \* inline data: nothing to preallocate, the request is a no-op or refused
              ELSE IF Grows(Tr[l].mode) \/ uok[F + 1] = 1 THEN B
              ELSE LET e == eofc[F + 1][size[F] + 1] IN IF e < A THEN A ELSE IF e < B THEN e ELSE B
+\* strict: a preallocation that ran out of space leaves the bytes alone (what it did allocate reads as zeros like the hole
+\* it replaces); the caller of an allocate-and-extend mode may still have moved EOF
+FallocFailExact == /\ UNCHANGED <<cell, res, taint>>
+                   /\ \E s \in {size[F], Max(size[F], B)} : (s # size[F] => Grows(Tr[l].mode)) /\ size' = [size EXCEPT ![F] = s]
 TFalloc == /\ IsEvent("falloc") /\ Stamp("falloc") /\ Keep
            /\ \/ /\ Ok /\ A < B
                  /\ cell' = [cell EXCEPT ![F] = FallocCells(@, A, FallocLim)]
                  /\ size' = [size EXCEPT ![F] = IF Grows(Tr[l].mode) THEN Max(@, B) ELSE @]
                  /\ UNCHANGED <<res, taint>>
-              \/ NoSpace /\ Tainted
-              \/ Refused /\ Unchanged
+                 /\ RelGrow(F, Acct) /\ Note(FALSE)
+              \/ /\ NoSpace /\ (IF strict = 1 THEN FallocFailExact ELSE Tainted)
+                 /\ \/ RelGrow(F, Acct) /\ Note(FALSE)
+                    \* known finding DevFallocLeak: only extent-mapped files have a range claim followed by an insert
+                    \/ uok[F + 1] = 1 /\ Tr[l].inl[F + 1] = 0 /\ RelFallocLeak(F, Acct) /\ Note(TRUE)
+              \/ Refused /\ Unchanged /\ RelGrow(F, Acct) /\ Note(FALSE)
            /\ Seen
 TRead == /\ IsEvent("read") /\ Stamp("read") /\ Keep
          /\ res' = ReadOf(size[F], cell[F]) /\ UNCHANGED <<size, cell, taint>>
+         /\ RelNone(Acct) /\ KeepLad /\ UNCHANGED armed
          /\ Seen
 \* flush / reopen of the handle / remount of the filesystem: no abstract effect.  Running out of space while
 \* flushing loses the buffered block: tainted.
+\* flush / reopen write the buffered block (converting an uninitialized block may split its extent); remount closes
+\* both handles and the filesystem and opens it again: the record after it is the ON-DISK state, everything the
+\* session allocated must have been recorded
 TSync(e) == /\ IsEvent(e) /\ Stamp("sync") /\ Keep
             /\ \/ Ok /\ Unchanged
                \/ NoSpace /\ Tainted
                \/ Refused /\ Unchanged
+            /\ (IF e = "remount" THEN RelGrowAll(Acct) ELSE RelGrow(F, Acct)) /\ KeepLad /\ UNCHANGED armed
             /\ Seen
 \* after ext2fs_close: both files as a fresh read-only open sees them, and the consistency oracle's verdict
 \* closing a handle flushes its buffer; running out of space there loses that block: the file is tainted
@@ -110,14 +168,31 @@ TFinal == /\ IsEvent("final") /\ Stamp("final") /\ Keep
           /\ \A g \in Files : Tr[l].cret[g + 1] \in {0, 1}
           /\ taint' = [g \in Files |-> taint[g] \/ Tr[l].cret[g + 1] = 1]
           /\ UNCHANGED <<size, cell, res>>
+          /\ RelGrowAll(Acct) /\ KeepLad /\ UNCHANGED armed
           /\ Seen
-          /\ Tr[l].consistent = 1
+          \* e2fsck -fn after close; a leak (only DevFallocLeak can produce one) is exactly what it then reports
+          /\ (Total(leak') = 0 => Tr[l].consistent = 1)
 
 TraceInit == /\ AInit /\ l = 1 /\ taint = [f \in Files |-> FALSE] /\ al = <<>> /\ uok = <<>> /\ eofc = <<>>
-TraceNext == TReset \/ TWrite \/ TSetSize \/ TPunch \/ TFalloc \/ TRead
+             /\ free = 0 /\ own = [f \in Owners |-> 0] /\ leak = [f \in Owners |-> 0] /\ ibx = [f \in Owners |-> 0]
+             /\ dfree = 0 /\ bbdirty = FALSE /\ mounted = TRUE /\ aop = [k |-> "init", f |-> 0, ret |-> 0]
+             /\ strict = 0 /\ sit = "" /\ lad = "" /\ armed = FALSE /\ lseen = {} /\ bid = -1
+TraceNext == TReset \/ TBegin \/ TSetFree \/ TWrite \/ TSetSize \/ TPunch \/ TFalloc \/ TRead
              \/ TSync("flush") \/ TSync("reopen") \/ TSync("remount") \/ TFinal
 TraceSpec == TraceInit /\ [][TraceNext]_tvars
 TraceAccepted == TLCGet("stats").diameter - 1 = Len(Tr)
+\* Every accepted history that is a ladder history or that took the named deviation leaves a note next to the trace file
+\* (read by checks/c09.py): the ladder elements seen so far, and its own id if units are leaked at its end.  Only the
+\* branch RelFallocLeak of TFalloc can make leak non-zero, so `dev` lists exactly the behaviours in which the known
+\* finding DevFallocLeak shows; everything else in them conforms (they were accepted).
+Record == IF l > 1 /\ Tr[l - 1].e = "final" /\ (strict = 1 \/ Total(leak) > 0)
+          THEN JsonSerialize(IOEnv.TRACE \o "." \o ToString(l) \o ".note.json",
+                             [lad |-> SetToSeq(lseen), dev |-> IF Total(leak) > 0 THEN <<bid>> ELSE <<>>])
+          ELSE TRUE
+\* The property invariant the known finding violates.  It is listed in Trace_FileData_strict.cfg (DevFallocLeak enabled, this
+\* invariant on): a behaviour noted under `dev` must fail exactly this invariant there (checks/c09.py confirms that once per run
+\* and `--replay` of the known finding shows it).
+NoFallocLeak == \A f \in Owners : leak[f] = 0 /\ ibx[f] = 0
 TraceTypeOK == /\ size \in [Files -> Cuts]
                /\ \A f \in Files, i \in Cells : cell[f][i] \in ({Hole, Zero} \cup (1 .. MaxOps))
 =============================================================================
